@@ -486,6 +486,18 @@ func check(c Case) error {
 		if err != nil {
 			return err
 		}
+		if c.Mem > 0 && c.Tree.HasSingleChildInner() {
+			// loadMain does not re-root trees that have single-child nodes (its model re-rooting does not
+			// handle them): re-root the object and take the tree read back from it as the tree to start
+			// from (Reroot itself is C05's subject) - single-child nodes then sit on the path between
+			// the old and the new root, with their parent no longer first among their neighbours
+			if err := gt.RerootInMemory(t, c.Mem); err != nil {
+				return err
+			}
+			if c.Tree, err = gt.Read(t); err != nil {
+				return err
+			}
+		}
 		t.RemoveSingleNodes()
 		if err := gt.Structural(t); err != nil {
 			return fmt.Errorf("single nodes: %v%s", err, ctx(""))
